@@ -34,8 +34,7 @@ TRUSTED = ['gevent starts spawned greenlets in spawn order (step mode replaces g
            'scales.pool.watermark by a FIFO the harness drains one task at a time; hub mode uses the real hub)',
            'mock connections: Open() either returns a completed result or a pending AsyncResult that the harness '
            'completes later (requests are then issued from their own greenlets, which block inside _Get)']
-ASSUMPTIONS = ['Open() of the pool is only exercised with a connection that opens (failing first open: C09/F5)',
-               'FIFO "no overtaking by a fresh request" is only claimed for a pool that was never closed; '
+ASSUMPTIONS = ['FIFO "no overtaking by a fresh request" is only claimed for a pool that was never closed; '
                'hand-off order, exclusivity, bounds and size accounting are claimed for every history',
                'connections do not answer synchronously inside AsyncProcessRequest',
                'Open() of the pool itself (_OpenImpl) is exercised with connections whose Open() completes at once']
@@ -59,7 +58,7 @@ def gen_script(rng, tier):
     p_lat = rng.choice([0.0, 0.3, 0.6, 1.0])     # connects that take time
     ops = []
     if rng.random() < 0.7:
-        ops.append(['open', True])
+        ops.append(['open', rng.random() >= 0.15])      # sometimes the first connection fails to open
     ncalls, nsinks_guess, nlat = 0, 0, 0
     live = []          # call ids believed incomplete
     timers = {}
@@ -102,7 +101,7 @@ def gen_script(rng, tier):
         elif r < 0.86 + p_die + p_close:
             ops.append(['close'])
         elif r < 0.86 + p_die + p_close + 0.02:
-            ops.append(['open', True])
+            ops.append(['open', rng.random() >= 0.3])
         else:
             if live and rng.random() < 0.3:
                 ops.append(['resp', rng.choice(range(ncalls))])   # late / duplicate reply
@@ -126,14 +125,18 @@ def exhaustive(tier, shard, shards):
     L = (THOROUGH if tier == 'thorough' else QUICK)['exhaustive_len']
     alphabet = [['req', True, True, False], ['req', True, True, True], ['resp', 0], ['resp', 1], ['to', 1],
                 ['to', 0], ['run'], ['die', 0], ['resp', 2], ['close'], ['openedany', 0, True],
-                ['openedany', 0, False]]
+                ['openedany', 0, False], ['open', False], ['open', True]]
     k = 0
 
     def sensible(seq):
-        nreq, timed, nlat = 0, set(), 0
+        nreq, timed, nlat, nopen = 0, set(), 0, 0
         for x in seq:
             o = alphabet[x]
-            if o[0] == 'req':
+            if o[0] == 'open':
+                nopen += 1
+                if nopen > 1:
+                    return False
+            elif o[0] == 'req':
                 nreq += 1
                 if nreq > 4:
                     return False
@@ -146,7 +149,7 @@ def exhaustive(tier, shard, shards):
                     if o[1] in timed:
                         return False
                     timed.add(o[1])
-            elif o[0] == 'die' and nreq == 0:
+            elif o[0] == 'die' and nreq == 0 and nopen == 0:
                 return False
             elif o[0] == 'openedany':
                 if nlat == 0:
@@ -157,7 +160,7 @@ def exhaustive(tier, shard, shards):
     for cfg in ((1, 1, 1), (0, 2, 1), (1, 2, 2)):
         for n in range(1, L + 1):
             for seq in itertools.product(range(len(alphabet)), repeat=n):
-                if seq[0] > 1 or not sensible(seq):
+                if seq[0] not in (0, 1, 12, 13) or not sensible(seq):
                     continue
                 k += 1
                 if k % shards != shard:
@@ -452,6 +455,7 @@ def run_script(script):
                     sinks[sid].open_ar.set()
                 else:
                     sinks[sid].open_ar.set_exception(Exception('connect failed'))
+                    sinks[sid].on_faulted.Set()     # seen by the pool: it subscribes before Open().wait()
                     tags.add('connect-failed')
                 rt.drain()
                 flush_pending()
@@ -508,6 +512,7 @@ def run_script(script):
                 rt.drain()
                 if ar.ready() and ar.exception is not None:
                     evs.append(['raised', type(ar.exception).__name__])
+                    tags.add('open-failed')
                 flush_pending()
         hub_turns()
         rt.drain()
@@ -559,4 +564,4 @@ def nontrivial(case):
     t = set(case.get('tags', []))
     return bool(t & {'skip-candidate', 'waiter-timeout', 'dead-conn', 'handoff-fallthrough', 'maxwaiters',
                      'pool-closed', 'service-closed', 'late-reply', 'lent-timeout', 'arrival-during-connect',
-                     'connect-failed', 'zombie'})
+                     'connect-failed', 'zombie', 'open-failed'})
